@@ -303,6 +303,8 @@ pub(crate) struct CacheProcessor<V, U, CB, S> {
     pub(crate) ignore_internal_cost: bool,
     pub(crate) item_size: usize,
     pub(crate) cleanup_duration: Duration,
+    #[cfg(transparencies_stretto_verif)]
+    pub(crate) verif_guard: crate::verif::counters::WorkerGuard,
 }
 
 pub(crate) struct CacheCleaner<'a, V, U, CB, S> {
@@ -416,6 +418,37 @@ where
     CB: CacheCallback<Value = V>,
     S: BuildHasher + Clone + 'static + Send + Sync,
 {
+    /// Read-only picture of store, policy and expiry index (verification hook).
+    #[cfg(transparencies_stretto_verif)]
+    pub fn verif_snapshot(&self, tag: impl Fn(&V) -> u64) -> crate::verif::Snapshot {
+        let (costs, used, max_cost) = self.policy.verif_costs();
+        let store = self.store.verif_entries(tag);
+        crate::verif::Snapshot {
+            len: self.store.len(),
+            store,
+            costs,
+            used,
+            max_cost,
+            buckets: self.store.verif_buckets(),
+            item_size: self.store.item_size(),
+        }
+    }
+
+    /// Popularity estimate of an index hash as the policy sees it now (verification hook).
+    #[cfg(transparencies_stretto_verif)]
+    pub fn verif_estimate(&self, index: u64) -> i64 {
+        self.policy.verif_estimate(index)
+    }
+
+    /// (pending items, capacity) of the insert buffer (verification hook).
+    #[cfg(transparencies_stretto_verif)]
+    pub fn verif_buffer(&self) -> (usize, usize) {
+        (
+            self.insert_buf_tx.len(),
+            self.insert_buf_tx.capacity().unwrap_or(usize::MAX),
+        )
+    }
+
     /// clear the Cache.
     #[inline]
     pub fn clear(&self) -> Result<(), CacheError> {
@@ -628,28 +661,46 @@ where
             ignore_internal_cost,
             item_size,
             cleanup_duration,
+            #[cfg(transparencies_stretto_verif)]
+            verif_guard: crate::verif::counters::WorkerGuard::cache(),
         }
     }
 
     #[inline]
     pub(crate) fn spawn(mut self) -> JoinHandle<Result<(), CacheError>> {
         let ticker = tick(self.cleanup_duration);
+        #[cfg(transparencies_stretto_verif)]
+        let ticker = crate::verif::ticker::wrap(self.cleanup_duration, ticker);
         spawn(move || loop {
             select! {
                 recv(self.insert_buf_rx) -> res => {
                     if let Err(e) = self.handle_insert_event(res) {
                         tracing::error!("fail to handle insert event: {}", e);
+                        #[cfg(transparencies_stretto_verif)]
+                        crate::verif::counters::inc(&crate::verif::counters::HANDLER_ERRORS);
                     }
+                    #[cfg(transparencies_stretto_verif)]
+                    crate::verif::counters::inc(&crate::verif::counters::ITEMS_HANDLED);
                 },
                 recv(self.clear_rx) -> _ => {
                     if let Err(e) = self.handle_clear_event() {
                         tracing::error!("fail to handle clear event: {}", e);
+                        #[cfg(transparencies_stretto_verif)]
+                        crate::verif::counters::inc(&crate::verif::counters::HANDLER_ERRORS);
                     }
+                    #[cfg(transparencies_stretto_verif)]
+                    crate::verif::counters::inc(&crate::verif::counters::CLEARS_DONE);
                 },
                 recv(ticker) -> msg => {
+                    #[cfg(transparencies_stretto_verif)]
+                    crate::verif::counters::inc(&crate::verif::counters::TICKS_STARTED);
                     if let Err(e) = self.handle_cleanup_event(msg) {
                         tracing::error!("fail to handle cleanup event: {}", e);
+                        #[cfg(transparencies_stretto_verif)]
+                        crate::verif::counters::inc(&crate::verif::counters::HANDLER_ERRORS);
                     }
+                    #[cfg(transparencies_stretto_verif)]
+                    crate::verif::counters::inc(&crate::verif::counters::TICKS_DONE);
                 },
                 recv(self.stop_rx) -> _ => return Ok(()),
             }
